@@ -945,6 +945,10 @@ class FnTranslator:
         for s in stmts:
             if isinstance(s, ast.If):
                 s = ast.If(test=s.test, body=self.desugar(s.body), orelse=self.desugar(s.orelse))
+                if not s.body and s.orelse:
+                    # [loop ties C05] the then-side held only log lines: `if c: <nothing> else: B` is `if not c: B` (an if
+                    # without a body is not a Python statement; tools/fn_selftest.py prints and re-parses the region)
+                    s = ast.If(test=ast.UnaryOp(op=ast.Not(), operand=s.test), body=s.orelse, orelse=[])
                 if not s.body and not s.orelse:
                     # [loop ties C15] an `if` that held nothing but log lines (`if verbose: logging.info(...)`): it has no
                     # effect when its test has none -- names, attributes, constants, not / and / or, comparisons,
